@@ -109,7 +109,7 @@ prop(
     assumptions=['after handle.flush()/sync() the bytes are in the OS page cache, which survives process death', 'PyTables EArray.append and netCDF slice assignment extend along axis 0 and reject shape mismatches before changing anything'],
     explanation='Rep(W) preservation and exceptional postconditions.',
     technique='contract-based deductive verification: symbolic execution of the real Python source against sidecar contracts, VCs to z3/cvc5; bounded partition/refusal/crash enumeration on real files as labelled stand-in for the Cython and text writers',
-    level_text='Writer representation invariant for HDF5TrajectoryFile and NetCDFTrajectoryFile proved for one write() on an arbitrary state (symbolic frames-so-far n0, batch length n, atom counts, every schema combination): accepted batches extend every stored field by exactly the batch (=> any partition equals one call, by induction), ragged batches raise ValueError with every stored field and the position unchanged, HDF5 write ends with flush, flush() calls the library flush. The streaming text writers xyz and mdcrd: one call with two frames and two calls with one frame each produce identical token streams (symbolic coordinates, formatted numbers as tokens), the documented layouts, one mdcrd title line, and a write that adds or drops the cell lengths is refused with ValueError before anything is written. The other text writers, the Cython writers, and durability after flush (crash points) are bounded-only.',
+    level_text='Writer representation invariant for HDF5TrajectoryFile and NetCDFTrajectoryFile proved for one write() on an arbitrary state (symbolic frames-so-far n0, batch length n, atom counts, every schema combination): accepted batches extend every stored field by exactly the batch (=> any partition equals one call, by induction), ragged batches raise ValueError with every stored field and the position unchanged, HDF5 write ends with flush, flush() calls the library flush. The streaming text writers xyz, mdcrd and lammpstrj: one call with two frames and two calls with one frame each produce identical token streams (symbolic coordinates, formatted numbers as tokens; for lammpstrj apart from the call-local TIMESTEP number), the documented layouts, one mdcrd title line, and a write that adds or drops the cell lengths is refused with ValueError before anything is written. The other text writers, the Cython writers, and durability after flush (crash points) are bounded-only.',
     level_note='Trusted: PyTables append / netCDF unlimited-dimension assignment models; third-party durability of flush/sync is assumed and exercised by the bounded crash check.',
 )
 
